@@ -343,6 +343,9 @@ func (vc *VC) compileContract(fi *FuncInfo) {
 	all = append(all, con.Ensures...)
 	all = append(all, con.Modifies...)
 	all = append(all, con.PanicsWhen...)
+	if con.Measure != nil {
+		all = append(all, con.Measure)
+	}
 	for _, cbs := range con.Callbacks {
 		all = append(all, cbs...)
 	}
